@@ -282,6 +282,34 @@ def same_k(a, b, rel=1e-12):
     return same_uval(a["uval"], b["uval"], rel)
 
 
+def same_quantity(obs, spec, bare):
+    """oracle for a stored constant: a bare number must carry exactly the order's units in the reaction's system;
+    a quantity given with units must keep its dimension and its SI value (the statement does not say in which
+    system it is stored)"""
+    if obs is None or spec is None:
+        return obs is None and spec is None
+    if list(obs["dim"]) != list(spec["dim"]):
+        return False
+    if bare:
+        return list(obs["sys"]) == list(spec["sys"]) and close(obs["v"], frac(spec["v"]), rel=1e-12)
+    return close(frac(obs["v"]) * si_factor(obs["sys"], obs["dim"]), frac(spec["v"]) * si_factor(spec["sys"], spec["dim"]), rel=1e-9)
+
+
+def stored_ok(obs, spec, desc):
+    """obs / spec in the {"uval"} | {"dict"} form; desc = the generated description (to know what was a bare number)"""
+    if ("dict" in obs) != ("dict" in spec):
+        return False
+    if "dict" not in spec:
+        return same_quantity(obs["uval"], spec["uval"], "num" in desc)
+    bare = {}
+    for key, sc in desc["dict"]:
+        for ki in key.split(","):
+            bare[ki.strip()] = "num" in sc
+    if [a for a, _ in obs["dict"]] != [a for a, _ in spec["dict"]]:
+        return False
+    return all(same_quantity(x[1], y[1], bare[x[0]]) for x, y in zip(obs["dict"], spec["dict"]))
+
+
 def model_uval(j):
     if j is None:
         return None
@@ -429,7 +457,7 @@ def oracle(case, got):
     if "error" in rp or rp["ssto"] != es or rp["psto"] != ep:
         fails.append(("print-parse", "printing and parsing back does not give the same reaction", {"ssto": es, "psto": ep}))
     skf, skr = spec_k(case["kf"], sys, k_dim(n)), spec_k(case["kr"], sys, k_dim(m))
-    if not same_k(got["kf"], skf) or not same_k(got["kr"], skr):
+    if not stored_ok(got["kf"], skf, case["kf"]) or not stored_ok(got["kr"], skr, case["kr"]):
         fails.append(("k-stored", "stored constants differ (bare numbers must get the order's units in the reaction's system; "
                       "quantities with units are kept)", {"kf": skf, "kr": skr}))
     sp = got["split"]
@@ -440,7 +468,8 @@ def oracle(case, got):
         zero_f = {"uval": {"v": 0.0, "sys": list(sys), "dim": list(k_dim(m))}}
         zero_b = {"uval": {"v": 0.0, "sys": list(sys), "dim": list(k_dim(n))}}
         ok = (f["ssto"] == es and f["psto"] == ep and b["ssto"] == ep and b["psto"] == es
-              and same_k(f["kf"], skf) and same_k(b["kf"], skr) and same_k(f["kr"], zero_f) and same_k(b["kr"], zero_b)
+              and stored_ok(f["kf"], skf, case["kf"]) and stored_ok(b["kf"], skr, case["kr"])
+              and same_k(f["kr"], zero_f) and same_k(b["kr"], zero_b)
               and f["sys"] == list(sys) and b["sys"] == list(sys))
         if not ok:
             fails.append(("split", "split() is not the two irreversible reactions with the same constants", {"kf": skf, "kr": skr}))
@@ -708,6 +737,10 @@ def run(ctx):
         if r is not None and ("error" in r) != ("error" in got):
             ctx.disagree("network", desc, got, r)
 
+    ctx.notes.append("partial theorems: parse_render_partial (missing: derivation of 'no -> inside a rendered side' from 'no -> inside a label'; "
+                     "the token, side and arrow levels are proved for arbitrary blanks), split_spec_partial (single-valued constants; "
+                     "per-environment dictionaries by correspondence), coefficient_text (decimal text of 0..99 by kernel evaluation); "
+                     "print_parse is stated on concrete instances only (examples) and checked by the oracle on every generated reaction")
     ctx.notes.append("the label check admits '->' and non-ASCII blanks (\\x1c-\\x1f, \\x85, \\xa0 ...) that an equation text cannot carry; "
                      "parse_render / print_parse carry 'label is a word without \"->\"' as a hypothesis (DESIGN §6 C19)")
 
